@@ -26,7 +26,7 @@ package util
 //@ spec validEscape(lit []byte) bool = len(lit) >= 4 && lit[0] == '\'' && lit[1] == '\\' && lit[len(lit)-1] == '\'' && (escNamed(lit) || escOct(lit) || escX(lit) || escU4(lit) || escU8(lit))
 //@ spec escapeVal(lit []byte) int = ite(escNamed(lit), namedVal(lit[2]), ite(escOct(lit), octVal(lit), ite(escX(lit), xVal(lit), ite(escU4(lit), u4Val(lit), u8Val(lit)))))
 //@ # a plain (unescaped) rune literal: exactly one UTF-8 encoded character between the quotes
-//@ spec validPlain(lit []byte) bool = len(lit) >= 3 && lit[0] == '\'' && lit[len(lit)-1] == '\'' && lit[1] != '\\' && DecSize(view(lit[1:]), len(lit)-1) == len(lit)-2
+//@ spec validPlain(lit []byte) bool = len(lit) >= 3 && lit[0] == '\'' && lit[len(lit)-1] == '\'' && lit[1] != '\\' && DecSize(raw(lit), off(lit)+1, len(lit)-1) == len(lit)-2
 //@
 //@ func digitVal
 //@   prop C20
@@ -47,7 +47,7 @@ package util
 //@   prop C20 C13
 //@   requires [valid] validEscape(lit) || validPlain(lit)
 //@   ensures [escape] imp(lit[1] == '\\', result == escapeVal(lit))
-//@   ensures [plain] imp(lit[1] != '\\', result == DecR(view(lit[1:]), len(lit)-1))
+//@   ensures [plain] imp(lit[1] != '\\', result == DecR(raw(lit), off(lit)+1, len(lit)-1))
 //@   assigns nothing
 //@
 //@ func IntValue
